@@ -12,6 +12,7 @@
   Constant); their theorems are now unconditional.
 -/
 import TypedpyModel.Lemmas.Derive
+import TypedpyModel.Lemmas.DeriveTotal
 import TypedpyModel.Props.C14
 namespace Typedpy.C12
 open Typedpy
@@ -202,6 +203,81 @@ theorem allRequired_keeps_constants {O : Oracles} {w : World} (hS : HasStructure
   have := (derive_required_partial hS hk hr h n).mp hn
   simp [specRequires, memberNeedsValue, hc, Member.needsValue] at this
 
+/-! ### totality: on every class a history can define, an operator returns a class -/
+
+/-- C12 (totality): in every world reachable by class statements (definitions at any depth and
+    shape, mixins, earlier derivations), for every class of that world, every operator whose names —
+    if it takes any — are fields of the class RETURNS A CLASS (no check of the class statement it ends
+    in can fail), and that class has exactly the documented field set, for every retained name the
+    source's Field object (declaration and default), the documented required set (outside the known
+    finding region), is a plain Structure class and keeps class-level None handling. -/
+theorem derive_total (O : Oracles) {w : World} (hr : Reachable O w) {c : ClassDef} {cn : String}
+    (hc : w.find cn = some c) (nm : String) (op : DeriveOp) (hn : ∀ k ∈ opNames op, k ∈ c.fieldNames) :
+    ∃ d, deriveClass O w c nm op = .ok d
+      ∧ (∀ n, n ∈ d.fieldNames ↔ specHasField op c.fieldNames n = true)
+      ∧ (∀ n, lookup n d.allFields = if keeps op n then lookup n c.allFields else none)
+      ∧ (ReqNoDefault c → ∀ n, n ∈ d.required ↔ specRequires op c n = true)
+      ∧ d.mro = [nm, "Structure"] ∧ d.ignoreNone = c.ignoreNone := by
+  have hS := reachable_hasStructure hr
+  have hk := classOk_keysNodup (reachable_ok hr cn c hc)
+  have h := c12_derive_total O hS (reachable_good hr cn c hc) nm op hn
+  exact ⟨_, h, derive_fields hS hk h, derive_field_same hS hk h,
+    fun hrd => derive_required_partial hS hk hrd h, (derive_shape hS h).2.1, derive_ignore_none hS h⟩
+
+/-- C12 (when an operator raises): on a class of a reachable world an operator raises exactly when
+    it is given a name that is not a field of the class — and then it is TypeError -/
+theorem derive_raises_iff (O : Oracles) {w : World} (hr : Reachable O w) {c : ClassDef} {cn : String}
+    (hc : w.find cn = some c) (nm : String) (op : DeriveOp) :
+    (∃ e, deriveClass O w c nm op = .error e) ↔ ∃ k ∈ opNames op, k ∉ c.fieldNames := by
+  constructor
+  · rintro ⟨e, he⟩
+    apply Classical.byContradiction
+    intro hno
+    have hn : ∀ k ∈ opNames op, k ∈ c.fieldNames := by
+      intro k hk
+      apply Classical.byContradiction
+      intro hk'
+      exact hno ⟨k, hk, hk'⟩
+    rcases derive_total O hr hc nm op hn with ⟨d, hd, _⟩
+    rw [hd] at he
+    cases he
+  · rintro ⟨k, hk, hkn⟩
+    cases op with
+    | partialOf => cases hk
+    | allRequired => cases hk
+    | extend => cases hk
+    | «omit» names => exact ⟨.typeErr, (derive_unknown_name_TypeError O w c nm names k hk hkn).1⟩
+    | pick names => exact ⟨.typeErr, (derive_unknown_name_TypeError O w c nm names k hk hkn).2⟩
+
+/-- C12 (what is done with the other class-level settings): `_init_class_dict` copies `_fields`,
+    `_ignore_none` and nothing else, so the derived class has NO `_additional_properties` /
+    `_immutable` of its own and reads typedpy's defaults through `Structure`: it admits additional
+    properties (its constructor has `**kwargs`) and is mutable — whatever the source declares or
+    inherits (an `ImmutableStructure` source, `_additional_properties = False`) -/
+theorem derive_flags_not_copied {O : Oracles} {w : World} (hS : HasStructure w) {c d : ClassDef}
+    {nm : String} {op : DeriveOp} (h : deriveClass O w c nm op = .ok d) :
+    d.ownAddl = none ∧ d.addl = true ∧ d.sig.kwargs = true ∧ d.ownImmutable = none ∧ d.immutable = false := by
+  unfold deriveClass at h
+  rcases bindE_eq_ok h with ⟨src, hsrc, hd⟩
+  rcases defineClass_ok hd with ⟨_, rfl⟩
+  rw [deriveSrc_ok hsrc]
+  have hS' : w.find "Structure" = some (World.builtin "Structure" [] false) := hS
+  have hbd : baseDefs w (derivedSrc c nm (derivedFields c op) (derivedRequired c op))
+      = [World.builtin "Structure" [] false] := by
+    simp [baseDefs, derivedSrc, hS']
+  have hseq : mroSeqs w (derivedSrc c nm (derivedFields c op) (derivedRequired c op))
+      = [["Structure"], ["Structure"]] := by
+    rw [mroSeqs, hbd]; rfl
+  have htail : mroTail w (derivedSrc c nm (derivedFields c op) (derivedRequired c op)) = ["Structure"] := by
+    simp [mroTail, hseq, c3_structure]
+  refine ⟨rfl, ?_, rfl, rfl, ?_⟩
+  · show ((derivedSrc c nm _ _).addl.orElse fun _ => inheritedOpt w (·.ownAddl) (mroTail w _)).getD true = true
+    rw [htail]
+    simp [inheritedOpt, hS', World.builtin, derivedSrc]
+  · show ((derivedSrc c nm _ _).immutable.orElse fun _ => inheritedOpt w (·.ownImmutable) (mroTail w _)).getD false = false
+    rw [htail]
+    simp [inheritedOpt, hS', World.builtin, derivedSrc]
+
 /-! ### closure under composition (any number of operators) and further extension -/
 
 theorem hasStructure_add {w : World} (hS : HasStructure w) (d : ClassDef) : HasStructure (w.add d) :=
@@ -383,6 +459,18 @@ theorem derive_example :
     ∧ (getCls exWorld "Pk").fieldNames = ["s"] ∧ (getCls exWorld "Pk").mro = ["Pk", "Structure"]
     ∧ (exWorld.find "Bad").isNone = true
     ∧ (getCls exWorld "X").fieldNames = ["a", "s", "b", "c", "x"] ∧ (getCls exWorld "X").required = ["x"] := by
+  decide
+
+/-- non-vacuity of `derive_flags_not_copied`: Partial of an ImmutableStructure class that forbids
+    additional properties is mutable and admits them -/
+def flagWorld : World :=
+  runSteps exO W0 [.define { name := "Im", bases := ["ImmutableStructure"], entries := [("a", intF)], addl := some false },
+                   .derive .partialOf "Im" "PIm"]
+
+theorem flags_example :
+    (getCls flagWorld "Im").immutable = true ∧ (getCls flagWorld "Im").addl = false
+    ∧ (getCls flagWorld "PIm").immutable = false ∧ (getCls flagWorld "PIm").addl = true
+    ∧ (getCls flagWorld "PIm").sig.kwargs = true ∧ (getCls flagWorld "PIm").fieldNames = ["a"] := by
   decide
 
 end Typedpy.C12
